@@ -2221,7 +2221,7 @@ const c05OktaTargeted = 16
 
 func TestVerif_C05(t *testing.T) {
 	verifWriteConsts(t)
-	res := newVerifResult("exhaustive depth-3 histories over 13 core letters and depth-2 over all 19 letters of the alphabet (thorough: depth 3 over all 19, depth 4 over the first eight); requests optionally authenticated by a verified client certificate and/or with failing profile writes after the prefix [login alice; login bob] + seeded random histories of length <= 12 (thorough <= 20) over all 16 operations, two enrolment configurations, cookies attached singly and in pairs in both orders + targeted scenarios; non-trivial = the history contains at least one level upgrade; distinct by (operations, outputs)")
+	res := newVerifResult("exhaustive depth-3 histories over 13 core letters and depth-2 over all 29 letters of the alphabet, depth 3 over the 8 letters of the Okta alphabet under the Okta configuration (thorough: depth 3 over 19 letters, depth 4 over the first eight and over the Okta letters); requests optionally authenticated by a verified client certificate, with failing profile writes, or served from the cache database, after the prefix [login user 1; login user 2] + seeded random histories of length <= 12 (thorough <= 20) over all operations + 18 targeted scenarios, under 32 configurations (two plain, a family of user-name pairs in which one name matches the other as a pattern x row orders, two with the Okta authenticator); cookies attached singly and in pairs in both orders; non-trivial = the history contains at least one level upgrade; distinct by (operations, outputs)")
 	vip := &c05Vip{}
 	vip.reset()
 	// lib/vip builds a new http.Transport for every call and never closes its idle connection: without
@@ -2384,7 +2384,11 @@ func TestVerif_C05(t *testing.T) {
 		allLetters[i] = i
 	}
 	if thorough {
-		enumerate(allLetters, 3, "exhaustive")
+		// depth 3 over the 13 core letters plus the six letters of rounds 3 and 4 (another session of the same
+		// user an hour later; a second sign request after 31 s; an assertion over the first challenge; the other
+		// user's code; TOTP and bootstrap OTP served from the cache): 19^3 = 6859; all 29 at depth 2
+		enumerate(append(append([]int{}, c05Core...), 19, 24, 25, 26, 27, 28), 3, "exhaustive")
+		enumerate(allLetters, 2, "exhaustive-depth2")
 		enumerate(allLetters[:8], 4, "exhaustive-depth4")
 	} else {
 		enumerate(c05Core, 3, "exhaustive")
